@@ -137,6 +137,68 @@ def torsion_checks(ctx: Ctx, m: Monitor):
     return out
 
 
+def nearest_tie(ctx: Ctx, drv: Driver):
+    """DefinitionResidue.get_nearest_bonds against the model's nearestBonds: every atom of every definition"""
+    from pdb2pqr import io as pio
+
+    from core import hexs, unhexs
+
+    defs = pio.get_definitions()
+    reqs, want = [], []
+    for name, ref in defs.map.items():
+        for x in ref.map:
+            try:
+                w = list(ref.get_nearest_bonds(x))
+            except KeyError:
+                continue  # a bond partner that is not in the definition (pseudo-atom of an unpatched definition)
+            reqs.append(f"repairfit.nearest\t{hexs(name)}\t\t{hexs(x)}")
+            want.append((name, x, w))
+    for (name, x, w), a in zip(want, drv.ask(reqs)):
+        ctx.evaluations += 1
+        got = [unhexs(t) for t in a.split(",")] if a and a != "unknown" else ([] if a != "unknown" else None)
+        if got != w:
+            ctx.disagree("DefinitionResidue.get_nearest_bonds", {"definition": name, "atom": x}, got, w)
+    ctx.count("nearest-bonds-compared", "atoms of all definitions", len(want))
+
+
+def template_spans(ref, names):
+    """some pair of the template atoms `names` is more than two bonds apart in the template"""
+
+    def within2(a, b):
+        if a == b or b in ref.map[a].bonds:
+            return True
+        return any(c in ref.map and b in ref.map[c].bonds for c in ref.map[a].bonds)
+
+    ns = [n for n in names if n in ref.map]
+    return any(not within2(a, b) for i, a in enumerate(ns) for b in ns[i + 1 :])
+
+
+def fit_choice_tie(ctx: Ctx, drv: Driver, m: Monitor):
+    """the three atoms repair_heavy fitted on (template names from the pairing record) against the model's fitAtoms
+    for that residue's run-time reference and the atoms present at that moment"""
+    from core import hexs, unhexs
+
+    reqs, recs = [], []
+    for c in m.created:
+        if c.get("caller") != "repair_heavy" or not c.get("pairing") or c.get("present") is None:
+            continue
+        if any(t is None for t, _w, _a in c["pairing"]):
+            continue
+        reqs.append(f"repairfit.fit\t{hexs(c['resname'])}\t{','.join(hexs(p) for p in c['patches'])}\t{','.join(hexs(n) for n in c['present'])}\t{hexs(c['name'])}")
+        recs.append(c)
+    for c, a in zip(recs, drv.ask(reqs)):
+        ctx.evaluations += 1
+        if a == "unknown":
+            ctx.count("fit-choice", "reference not in the generated topology")
+            continue
+        f, _, loc = a.partition("|")
+        got = [unhexs(t) for t in f.split(",")] if f else []
+        want = [t for t, _w, _a in c["pairing"]]
+        ctx.count("fit-choice", "local" if loc == "1" else "spans-a-rotatable-bond")
+        if got != want:
+            ctx.disagree("repair_heavy (choice of the three fit atoms)", {"residue": str(c["residue"]), "atom": c["name"], "present": c["present"]}, got, want)
+
+
 def mfit_coords(c, m, ua):
     """coordinates `ua` had when it served as a fit atom of creation record `c` (None if it did not)"""
     cur = tuple(ua.coords)
@@ -291,20 +353,32 @@ def final_checks(ctx: Ctx, m: Monitor, bio):
                         sig = {"kind": "coincident", "cause": "debumped-onto-own-backbone"}
                     out.append((sig, f"{res} {a.name} is {dist(a.coords, b.coords):.3f} A from {b.name}"))
                     break
-        # known finding: a missing backbone N of a residue that is not the first of its chain is rebuilt by a fit
-        # on CA, C-1 (the previous residue's C) and C, three atoms on BOTH sides of the rotatable N-CA bond. The
-        # template's backbone torsion differs from the structure's, the fit cannot be exact, and N (and then H / HA,
-        # which are fitted on N) comes out with wrong bond lengths and angles. Identified by: N rebuilt by
-        # repair_heavy in a residue with a previous residue, and the atom at fault is N or bonded to N or CA.
-        n_atom = res.get_atom("N") if res.has_atom("N") else None
-        if n_atom is not None and n_atom.added and getattr(res, "peptide_c", None) is not None and "N" in ref.map and "CA" in ref.map:
-            c_n = last.get(id(n_atom))
-            if c_n is not None and c_n.get("caller") == "repair_heavy":
-                near_n = {"N"} | set(ref.map["N"].bonds) | set(ref.map["CA"].bonds)
-                for k in range(out_start, len(out)):
-                    sg, msg = out[k]
-                    if sg.get("atom") in near_n and sg.get("kind") in ("bond", "angle", "tetrahedral-angle"):
-                        out[k] = ({"kind": "rebuilt-backbone-N", "cause": "fit-spans-the-rotatable-N-CA-bond"}, msg)
+        # known finding: a missing heavy atom whose three fit atoms (template names, taken from the pairing record,
+        # i.e. from the template coordinates the code passed to the fit) are not pairwise within two bonds of each
+        # other in the template is fitted across a rotatable bond: the template's torsion differs from the
+        # structure's, the fit cannot be exact, and the atom (and what is then built on it) comes out with wrong bond
+        # lengths and angles. Kernel-checked scope: Props/C05 truncated_rebuild_fits_local (never for truncated side
+        # chains, the carbonyl O or leaves), single_missing_middle_atom_refuted (always for a mid-chain amide N, for
+        # CG of lysine ...). Identified by: the atom at fault is such a rebuilt atom or within two template bonds of one.
+        spanning = []
+        for a in res.atoms:
+            c_a = last.get(id(a))
+            if a.added and c_a is not None and c_a.get("caller") == "repair_heavy" and c_a.get("pairing") and a.name in ref.map:
+                tn = [t for t, _w, _a in c_a["pairing"] if t is not None]
+                if len(tn) == 3 and template_spans(ref, tn):
+                    spanning.append(a.name)
+        if spanning:
+            near = set()
+            for x in spanning:
+                near.add(x)
+                for u in ref.map[x].bonds:
+                    near.add(u)
+                    if u in ref.map:
+                        near.update(ref.map[u].bonds)
+            for k in range(out_start, len(out)):
+                sg, msg = out[k]
+                if sg.get("atom") in near and sg.get("kind") in ("bond", "angle", "tetrahedral-angle"):
+                    out[k] = ({"kind": "rebuilt-heavy-atom", "cause": "fit-spans-a-rotatable-bond"}, msg)
     return out
 
 
@@ -319,6 +393,7 @@ def check_case(ctx: Ctx, drv: Driver, text, opts, feats, seen_sig):
     ctx.distinct.add((feats["kind"], feats["mode"], feats["target"], feats["pos"]))
     if r.status != "ok":
         return
+    fit_choice_tie(ctx, drv, m)
     found = fit_checks(ctx, drv, m) + tetra_checks(ctx, drv, m) + torsion_checks(ctx, m) + final_checks(ctx, m, r.biomolecule)
     ctx.count("oracle", "holds" if not found else found[0][0]["kind"])
     for sig, msg in found:
@@ -351,10 +426,11 @@ def run(ctx: Ctx):
     rng = ctx.rng
     drv = Driver()
     ctx.extra["rule"] = (
-        "the C04 case stream (each residue type forced in turn at every chain position, packed waters forcing debumping, missing side-chain atoms forcing heavy-atom repair, disulfide pairs, option modes incl. PROPKA states) plus free waters; "
+        "the C04 case stream (each residue type forced in turn at every chain position, packed waters forcing debumping, missing side-chain atoms (outer ends, single atoms in the middle of a chain, backbone O / N) forcing heavy-atom repair, disulfide pairs, option modes incl. PROPKA states) plus free waters; "
         "a case is (kind, option mode, target residue type, position); every find_coordinates / rotate_tetrahedral / make_atom_with_no_bonds / set_dihedral_angle call observed is an evaluation"
     )
     seen_sig = set()
+    nearest_tie(ctx, drv)
     n = ctx.scale(60, 2500)
     for ci in range(n):
         force = G.AA3[ci % len(G.AA3)] if ci % 2 == 0 else None
